@@ -118,7 +118,7 @@ void Dune::ParameterTreeParser::readINITree(std::istream& in,
           {
             char quote = value[0];
             value=value.substr(1);
-            while (*(rtrim(value).rbegin())!=quote)
+            while (rtrim(value).empty() || *(rtrim(value).rbegin())!=quote)
             {
               if (! in.eof())
               {
